@@ -11,7 +11,7 @@ MANIFEST_ENTRY = {
   "text": "proof (partial: per component, not for a model of the whole runtime). Theorems in coq/Properties/C07.v: for ALL operand values the index/length arithmetic and slicing at every inventoried panic site reachable from execute_current_instruction cannot reach its Panic point -- GarnishNumber operations (shift counts, MIN / -1, zero divisors), number->usize casts, equality/make_list register arithmetic, item getters and index_list/char/byte/symbol list on both stores (negative, fractional, NaN, huge indexes), range length / range access / make_range, ~# range->list, Simple's end_list placement, association probing and slice-of-concatenation window, the iterators, Basic's block-relative addressing, extents (reversed, clamped), association/end_list/conversion slices, pop_frame, binary search, reallocation copy, bytes->i32, the depth bound of the recursive renderers -- each under the part of the store invariant it names; for BasicGarnishData these hypotheses are additionally DISCHARGED for every reachable store of Model/BasicStore.v (fresh store with progressing growth settings, then any history of the C15 operation vocabulary): theorems C07_*_reachable derive block bounds, list runs, frame indexes from the invariant C15 proves (Proofs/C07/Reachable.v) and text runs, Char/Byte cell kinds and association counts from a strengthened invariant proved preserved by every operation (Proofs/C07/TextInv.v, for histories whose text operations write the character count as header; C07_text_invariant_needs_wf shows the side condition is necessary); a run of a machine whose step is safe never panics (C07_run_from_step); C07_full_statement (one step of the real runtime from the global store invariant) stays a Definition. The inventory of potential panic sites (unwrap/expect/indexing/slicing/panicking macros/usize arithmetic/casts/std calls that panic/recursion) is regenerated from /repo on every run and every site must be classified in tools/panic_map.json (model+lemma, argument, out of scope as verified against the name-based call graph); the index models are run against both data implementations; a boundary-value search (every instruction x operand type pairs x boundary values, every ~# cast, nested slices/concatenations, 10^5-deep data, grammar-generated programs with boundary literals, hosts absent/declining/accepting) looks for PANIC/HANG/CRASH on the real code.",
   "design_ref": "DESIGN.md section 8 C07"
  },
- "level_note": "Trusted: Coq kernel; Flocq's four standard-library axioms (through Model/Num.v); the scanner tools/sync/panicsites.py (syntactic, not a Rust front end: macro-generated code and trait objects are invisible to it), its re-matching rule (a site whose line was rewritten inherits the classification of the stale map entry it replaces only when, per file/function/kind, exactly as many sites appeared as disappeared, or a new helper is called by the single function that lost them; an added site never matches; a re-matched `model` site relies on the correspondence and boundary search of the same run) and the hand-written arguments in tools/panic_map.json; extraction (ExtrOcamlBasic only); the Rust harness. Not modelled: the text rendered by ~# conversions (only index arithmetic and recursion depth). Store invariants: discharged for stores reachable through the C15 operation vocabulary (the C07_*_reachable theorems); they remain HYPOTHESES for stores produced by operations outside that vocabulary (merge_to_symbol_list and SymbolList runs, the add_*_from conversions including the delegate's in-place header patch, optimize / clone (C19)), for growth settings that cannot make progress or have an item limit (C15's side condition), and the theorems about SimpleGarnishData need no store hypothesis at all (Vec-backed, every access checked); usize addition overflow, allocation failure, native stack depth of non-recursive code. Seven defects were fixed in /repo (see known_findings.json); known finding C07-K1 (listing or rendering a range of 2^31 or more positions exhausts time and memory) is re-confirmed on every run and excluded.",
+ "level_note": "Trusted: Coq kernel; Flocq's four standard-library axioms (through Model/Num.v); the scanner tools/sync/panicsites.py (syntactic, not a Rust front end: macro-generated code and trait objects are invisible to it), its re-matching rule (a site whose line was rewritten inherits the classification of the stale map entry it replaces only when, per file/function/kind, exactly as many sites appeared as disappeared, or a new helper is called by the single function that lost them; an added site never matches; a re-matched `model` site relies on the correspondence and boundary search of the same run) and the hand-written arguments in tools/panic_map.json; extraction (ExtrOcamlBasic only); the Rust harness. Not modelled: the text rendered by ~# conversions (only index arithmetic and recursion depth). Store invariants: discharged for stores reachable through the C15 operation vocabulary (the C07_*_reachable theorems); they remain HYPOTHESES for stores produced by operations outside that vocabulary (merge_to_symbol_list and SymbolList runs, the add_*_from conversions including the delegate's in-place header patch, optimize / clone (C19)), for growth settings that cannot make progress or have an item limit (C15's side condition), and the theorems about SimpleGarnishData need no store hypothesis at all (Vec-backed, every access checked); usize addition overflow, allocation failure, native stack depth of non-recursive code. Seven defects were fixed in /repo (see known_findings.json); known finding C07-K1 (listing or rendering a range of 2^31 or more positions exhausts time and memory) is re-confirmed on every run and excluded; known finding C07-K2 (an UNOPTIMISED build takes 20-25 KiB of native stack per nesting level in the recursive text conversions: depth ~90 overflows a 2 MiB stack on both data implementations) is a measured finding - every run builds the harness with opt-level 0, requires nesting depth 40 to answer Ok / Err on a 2 MiB stack and reports the crash at depth 999 as the known finding.",
  "technique": "Coq proofs (lia / induction) over executable index models + panic-site inventory tie + differential correspondence + boundary-value search on the Rust implementation"
 }
 
@@ -368,6 +368,62 @@ def run(tier, seed):
             print("NOTE property=%s re-matched panic site %d (%s, %s) in %s :: %s: `%s` -> `%s`" % (
                 PID, r["id"], r["class"], r["rule"], r["file"], r["function"], r["old_text"][:70], r["new_text"][:70]), flush=True)
         v.notes.append("%d panic site(s) re-matched to stale map entries (rewritten lines, nothing added): ids %s" % (len(rem), sorted(r["id"] for r in rem)))
+    # 5b. native stack of an UNOPTIMISED build (what `cargo build` / `cargo test` give a host by default): the recursive text
+    # conversions are run on data nested 40 and 999 levels deep with a 2 MiB stack (the default of a spawned thread).
+    # Depth 40 has to work; what happens between there and the depth cap of 1000 is known finding C07-K2.
+    unopt = {"built": False}
+    with vplib.Lock("cargo"):
+        rcU, outU = vplib.sh(["cargo", "build", "--offline", "--profile", "unopt", "--bin", "nopanic"], cwd=vplib.HARNESS, timeout=900,
+                             env={"RUSTFLAGS": "--cfg " + vplib.GUARD})
+    if rcU != 0:
+        v.tie_failure("harness build failed (unoptimised profile): " + outU[-300:])
+    else:
+        import resource
+        exeU = vplib.private_copy(os.path.join(vplib.CARGO_TARGET, "unopt", "nopanic"))
+        unopt["built"] = True
+
+        def deep_cases(depth):
+            out = []
+            for kind in "LlPpCcSA":
+                val = "D%s%d(%s)" % (kind, depth, c07_gen.i(1) if kind != "S" else c07_gen.L123)
+                for imp in "SB":
+                    for t in ("CharList", "ByteList", "Symbol"):
+                        out.append("O %s A ApplyType %s t%s" % (imp, val, t))
+            return out
+
+        def limit_stack():
+            soft, hard = resource.getrlimit(resource.RLIMIT_STACK)
+            resource.setrlimit(resource.RLIMIT_STACK, (2 * 1024 * 1024, hard))
+
+        for depth in (40, 999):
+            lines = deep_cases(depth)
+            try:
+                pU = subprocess.run([exeU], input="\n".join(lines) + "\n", stdout=subprocess.PIPE, stderr=subprocess.DEVNULL, text=True,
+                                    timeout=900, preexec_fn=limit_stack)
+                outl = [l for l in pU.stdout.splitlines() if "\t" in l]
+            except subprocess.TimeoutExpired:
+                outl = []
+            if len(outl) != len(lines):
+                v.tie_failure("unoptimised-profile run at depth %d: %d of %d answers" % (depth, len(outl), len(lines)))
+                continue
+            kinds = collections.Counter(l.split("\t")[1] for l in outl)
+            unopt["depth_%d" % depth] = dict(kinds)
+            for l in outl:
+                case, res = l.split("\t")[0], l.split("\t")[1]
+                if res in ("CRASH", "PANIC", "HANG"):
+                    if depth >= 64 and res == "CRASH" and "C07-K2" in listed:
+                        if not unopt.get("k2_reported"):
+                            unopt["k2_reported"] = True
+                            v.known_hit("C07-K2", "%s -> CRASH (unoptimised build, 2 MiB stack)" % case)
+                    else:
+                        v.violation(component="nopanic", profile="unopt", input=case, impl=res, expected="Ok or Err",
+                                    what="converting data nested %d levels deep killed the process (native stack, unoptimised build, 2 MiB stack)" % depth
+                                         if res == "CRASH" else "conversion of nested data: " + res)
+        try:
+            os.remove(exeU)
+        except OSError:
+            pass
+    timing["unopt_stack"] = unopt
     # 6. decide
     seen_msgs = set()
     for (c, result, detail, profile) in probe_hits:
